@@ -131,19 +131,26 @@ async def _run(ctx: Ctx, built: bool) -> None:
                 "Eval vm_compute in (map (fun c => wanted_table c ids) " + common.coq_list(coq_cfgs[k:k + shard], ";\n ") + ").")
         files[f"x1_{k // shard}"] = body
 
-    # ---------------- X2: glue -- pkt_received -> msg_handler ; send_cmd -> ProtocolError before the radio
+    # ---------------- X2: glue -- histories on ONE protocol instance: packets before the gateway id is known,
+    # connection_made(), then the same and other packets again; pkt_received -> msg_handler ; send_cmd -> radio
     glue_cases, glue_impl = [], []
     loop = asyncio.get_running_loop()
+
+    class Tr:
+        def __init__(self, gw):
+            self.gw = gw
+
+        def get_extra_info(self, k, d=None):
+            return {"active_gwy": self.gw, "is_evofw3": True}.get(k, d)
+
+        def is_closing(self):
+            return False
+
     for n in range(300 if thorough else 80):
         known, block, enforce_cfg, active = gen_cfg(rng)
         enforce = select_device_filter_mode(enforce_cfg, known, block)
         got_msgs: list = []
-        rp = ReadProtocol(got_msgs.append, enforce_include_list=enforce, exclude_list=block, include_list=known)
-        pp = PortProtocol(lambda m: None, enforce_include_list=enforce, exclude_list=block, include_list=known)
-        if active:
-            rp._set_active_hgi(active)
-            pp._set_active_hgi(active)
-        eff_active = active if active and active not in block else None
+        pp = PortProtocol(got_msgs.append, enforce_include_list=enforce, exclude_list=block, include_list=known)
         reached: list = []
 
         async def fake_send(cmd, *a, reached=reached, **k):
@@ -153,48 +160,69 @@ async def _run(ctx: Ctx, built: bool) -> None:
         pp._send_cmd = fake_send  # the path to the transport
         pp._pause_writing = False
         res = []
-        pairs = [rng.sample([i for i in IDS if i not in ("63:262142", "--:------")], 2) for _ in range(12)]
-        for src, dst in pairs:
-            frame = f" I --- {src} {dst} --:------ 0008 002 00C8"
-            pkt = Packet(dt.now(), "000 " + frame)
-            before = len(got_msgs)
-            rp.pkt_received(pkt)
-            for _ in range(3):
+        base_pairs = [rng.sample([i for i in IDS if i != "--:------"], 2) for _ in range(6)]
+        if active:
+            base_pairs.append([active, "63:262142"])   # e.g. the signature echo
+            base_pairs.append([active, rng.choice(LISTABLE)])
+        coq_steps = []
+        for phase in (0, 1):
+            if phase == 1 and active:
+                pp.connection_made(Tr(active), ramses=True)   # the real path to _set_active_hgi
                 await asyncio.sleep(0)
-            delivered = len(got_msgs) > before
-            res.append(delivered)
-            exp = reference(known, block, enforce, eff_active, src, dst, False)
-            ctx.case(("glue-rx", tuple(known), tuple(block), enforce, active, src, dst), True, "glue-receive")
-            if delivered != exp:
-                ctx.violation("receive-path:" + ("unsound" if not exp else "overblocks"),
-                              "pkt_received delivers/drops against the configured lists",
-                              {"known_list": list(known), "block_list": list(block), "enforce": enforce,
-                               "active_gateway": active, "frame": frame, "delivered": delivered})
-            cmd = Command(f"RQ --- {src} {dst} --:------ 0008 001 00")
-            n0 = len(reached)
-            try:
-                await pp.send_cmd(cmd)
-                outcome = any(c is cmd for c in reached[n0:])
-            except exc.ProtocolError:
-                outcome = False
-                if any(c is cmd for c in reached[n0:]):
-                    outcome = True
-            res.append(outcome)
-            exp = reference(known, block, enforce, eff_active, src, dst, True)
-            ctx.case(("glue-tx", tuple(known), tuple(block), enforce, active, src, dst), True, "glue-send")
-            if outcome != exp:
-                ctx.violation("send-path:" + ("unsound" if not exp else "overblocks"),
-                              "send_cmd reaches/refuses the radio against the configured lists",
-                              {"known_list": list(known), "block_list": list(block), "enforce": enforce,
-                               "active_gateway": active, "cmd": str(cmd), "reached_radio": outcome})
+            eff_active = active if (phase == 1 and active and active not in block) else None
+            pairs = base_pairs + ([rng.sample(LISTABLE, 2) for _ in range(3)] if phase else [])
+            for src, dst in pairs:
+                if src == dst or dst == "--:------":
+                    continue
+                frame = f" I --- {src} {dst} --:------ 0008 002 00C8"
+                try:
+                    pkt = Packet(dt.now(), "000 " + frame)
+                except Exception:  # noqa: BLE001
+                    continue
+                before = len(got_msgs)
+                pp.pkt_received(pkt)
+                for _ in range(3):
+                    await asyncio.sleep(0)
+                delivered = len(got_msgs) > before
+                res.append(delivered)
+                exp = reference(known, block, enforce, eff_active, src, dst, False)
+                ctx.case(("glue-rx", tuple(known), tuple(block), enforce, active, phase, src, dst), True, "glue-receive")
+                if delivered != exp:
+                    ctx.violation("receive-path:" + ("unsound" if not exp else "overblocks"),
+                                  "pkt_received delivers/drops against the configured lists (history on one protocol instance)",
+                                  {"known_list": list(known), "block_list": list(block), "enforce": enforce,
+                                   "active_gateway": active, "gateway_known_yet": bool(phase), "frame": frame, "delivered": delivered,
+                                   "packets_before": [list(x) for x in base_pairs] if phase else []})
+                coq_steps.append((phase, src, dst, False))
+                if dst == "63:262142":
+                    continue
+                cmd = Command(f"RQ --- {src} {dst} --:------ 0008 001 00")
+                n0 = len(reached)
+                try:
+                    await pp.send_cmd(cmd)
+                    outcome = any(c is cmd for c in reached[n0:])
+                except exc.ProtocolError:
+                    outcome = any(c is cmd for c in reached[n0:])
+                res.append(outcome)
+                exp = reference(known, block, enforce, eff_active, src, dst, True)
+                ctx.case(("glue-tx", tuple(known), tuple(block), enforce, active, phase, src, dst), True, "glue-send")
+                if outcome != exp:
+                    ctx.violation("send-path:" + ("unsound" if not exp else "overblocks"),
+                                  "send_cmd reaches/refuses the radio against the configured lists",
+                                  {"known_list": list(known), "block_list": list(block), "enforce": enforce,
+                                   "active_gateway": active, "gateway_known_yet": bool(phase), "cmd": str(cmd), "reached_radio": outcome})
+                coq_steps.append((phase, src, dst, True))
         glue_impl.append(bits(res))
         sel = "true" if enforce_cfg else "false"
-        cfg = (f"(set_active' {{| f_exclude := {zlist(block)}; f_include := {zlist(known)}; "
-               f"f_enforce := select_mode {sel} {zlist(known)}; f_active := None |}} {('(Some ' + zid(active) + ')') if active else 'None'})")
-        glue_cases.append(f"({cfg}, [" + "; ".join(f"({zid(s)},{zid(d)})" for s, d in pairs) + "])")
+        cfg0 = (f"{{| f_exclude := {zlist(block)}; f_include := {zlist(known)}; "
+                f"f_enforce := select_mode {sel} {zlist(known)}; f_active := None |}}")
+        act = ('(Some ' + zid(active) + ')') if active else 'None'
+        glue_cases.append(f"({cfg0}, {act}, [" + "; ".join(
+            f"({'true' if ph else 'false'}, {zid(a)}, {zid(b)}, {'true' if sd else 'false'})" for ph, a, b, sd in coq_steps) + "])")
     files["x2_glue"] = (PRELUDE + "Definition set_active' c (a : option Z) := match a with Some d => set_active c d | None => c end.\n"
-                        "Eval vm_compute in (map (fun cp : fcfg * list (Z*Z) => bits_of (flat_map (fun sd : Z*Z => "
-                        "[wanted (fst cp) false (fst sd) (snd sd); wanted (fst cp) true (fst sd) (snd sd)]) (snd cp))) "
+                        "Eval vm_compute in (map (fun x : fcfg * option Z * list (bool * Z * Z * bool) => match x with (c, a, steps) => "
+                        "bits_of (map (fun st : bool * Z * Z * bool => match st with (ph, s, d, sending) => "
+                        "wanted (if ph then set_active' c a else c) sending s d end) steps) end) "
                         + common.coq_list(glue_cases, ";\n ") + ").")
 
     # ---------------- X3/O3: gateway stage -- get_device over look-up histories
